@@ -735,6 +735,14 @@ func (w *VerifC05Writer) Explore(level VerifC05Level, scn *VerifC05Scn, maxRuns 
 	return VerifC05Explore(scn.setup(level), maxRuns, func(r VerifC05Run) { w.emit(scn, r) })
 }
 
+// Sample runs n schedules chosen at random (for scenarios too large to enumerate)
+func (w *VerifC05Writer) Sample(level VerifC05Level, scn *VerifC05Scn, n int, pick func(k int) int) {
+	setup := scn.setup(level)
+	for i := 0; i < n; i++ {
+		w.emit(scn, vc05Execute(setup, nil, func(_ *VerifC05Exec, e []int) int { return e[pick(len(e))] }))
+	}
+}
+
 // Comment writes a pair of lines that both sides copy verbatim (scenario statistics)
 func (w *VerifC05Writer) Comment(text string) {
 	b, _ := json.Marshal(map[string]string{"op": "note", "text": text})
